@@ -32,8 +32,9 @@ func checkC14(c *Ctx) {
 		}})
 	c14Sequences(c)
 	c14Pending(c)
+	c14Acceptance(c)
 	c.Assume("DDCB/FDCB: 2 or 3 opcode fetches accepted (statement)")
-	c.Assume("R across an accepted interrupt is not part of this property")
+	c.Assume("across an accepted interrupt only bit 7 of R and the whole of I are compared (the statement fixes those unconditionally); the low seven bits may or may not count the acknowledge cycle")
 }
 
 type c14Seq struct {
@@ -148,6 +149,65 @@ func c14Pending(c *Ctx) {
 							return
 						}
 					}
+				}
+			}
+		}
+	}
+	c.Evaluations += n
+	c.Transitions += n
+	c.Traces += n
+	c.Nontrivial += n
+	c.States += n
+}
+
+// c14Acceptance: accepting a request (NMI, modes 0/1/2) for all 256 R and a few I values: bit 7 of R and
+// the whole of I change only by LD R,A / LD I,A, hence not here.
+func c14Acceptance(c *Ctx) {
+	w := newWorker(obsBackground(c))
+	var n int64
+	nop := buildEnc([]uint8{0x00})
+	for kind := 0; kind < 5; kind++ {
+		for r := 0; r < 256; r++ {
+			for _, iv := range []uint8{0x00, 0x3F, 0x80, 0xFF} {
+				p := baseVector(r % 4)
+				p.S.IFF1, p.S.IFF2 = true, true
+				p.S.R, p.S.I = uint8(r), iv
+				var req *z80.Interrupt
+				switch kind {
+				case 0:
+					req = z80.NMIInterrupt()
+				case 1:
+					p.S.IM, req = 1, z80.IM1Interrupt()
+				case 2:
+					p.S.IM, req = 2, z80.IM2Interrupt(0x40)
+				case 3:
+					p.S.IM, req = 0, z80.IM0Interrupt(0xFF)
+				default:
+					p.S.IM, req = 0, z80.IM0Interrupt(0xCD, 0x34, 0x12)
+				}
+				var cs Case
+				materialise(&p, &nop, &cs)
+				w.setup(&cs)
+				w.cpu.Interrupt = req
+				pan := c02Step(&w.cpu)
+				n++
+				got := fromCPU(&w.cpu)
+				var d []string
+				if pan != nil {
+					d = append(d, fmt.Sprintf("panic: %v", pan))
+				}
+				if w.cpu.Interrupt != nil {
+					d = append(d, "request not accepted (framework expectation: IFF1 set)")
+				}
+				if got.R&0x80 != uint8(r)&0x80 {
+					d = append(d, fmt.Sprintf("bit 7 of R changed across the acceptance: R %02X -> %02X", r, got.R))
+				}
+				if got.I != iv {
+					d = append(d, fmt.Sprintf("I changed across the acceptance: %02X -> %02X", iv, got.I))
+				}
+				if len(d) > 0 {
+					c.Report(fmt.Sprintf("c14/acceptance:kind%d", kind), n, "", cs.toJSON(c.Salt), cloneStrings(append([]string{fmt.Sprintf("accepting request kind %d (0 NMI, 1 IM1, 2 IM2, 3 mode-0 RST, 4 mode-0 CALL) with R=%02X I=%02X", kind, r, iv)}, d...)))
+					break
 				}
 			}
 		}
